@@ -27,7 +27,7 @@ PROPS["C13"] = {
                    "every object created is released.  Four configurations (parsed NULL / non-NULL x manifest NULL / non-NULL), each in a quick variant (string lengths < 4096: labelled bounded) and a thorough variant (lengths < 2^32: proof). "
                    "Two bounded units on the real function with real path helpers complete it: c13_marker_buffer (text[1100] accesses for every marker position and length, >= 1000-byte marker skipped) and "
                    "c13_wildcard (for every output format {{a.*}} requests /a.html | /a.tex | /a.fodt | /a.* | /a.txt, a missing file leaves its marker).",
-    "slice": "mmd_transclude_source (transclude.c); path_from_dir_base/split_path_file/is_separator/add_trailing_sep (file.c) and stack.c bodies in the two bounded units",
+    "slice": "mmd_transclude_source (transclude.c); path_from_dir_base/split_path_file/is_separator/add_trailing_sep (file.c) and stack.c bodies in the two bounded units; mmd_engine_transclusion_manifest (walks a copy of the document)",
     "not_reached": "the substitution RESULT as bytes (content abstracted in the contract units; the second sentence of the property is reached only for the wildcard table, the marker cap and 'missing files leave their marker'); "
                    "metadata stripping content and 'transclude base' resolution (engine and path helpers are contract stubs); real file-system semantics; pointer staleness of start/stop after the DString grows (buffers do not move in the stubs)",
     "trusted_base": ["cbmc/goto-cc/goto-instrument 6.11.0 (DFCC, MiniSat2)", "content-free contract stubs of strstr/strcmp/strncmp/strncpy/strlen/strcpy, DString (lengths as in the C19 contracts), stack (C18 contracts), scan_file, mmd_engine_*, path helpers, my_strdup in C13/guard_rec.c",
